@@ -303,7 +303,16 @@ def _const_truth(g):
 
 
 class _ExpandUnpackedComprehension(ast.NodeTransformer):
-    """`a, b = [f(v) for v in (x, y)]`  ->  `a, b = (f(x), f(y))`  (also tuple(...)/list(...) wrappers and map(f, (x, y)))."""
+    """`a, b = [f(v) for v in (x, y)]`  ->  `a, b = (f(x), f(y))`  (also tuple(...)/list(...) wrappers and map(f, (x, y)));
+    the sequence may be a local bound once to a literal list/tuple."""
+    def __init__(self, local=None):
+        self.local = local or {}
+
+    def _seq(self, e):
+        if isinstance(e, ast.Name) and isinstance(self.local.get(e.id), (ast.Tuple, ast.List)):
+            return self.local[e.id]
+        return e
+
     def visit_Assign(self, node):
         if len(node.targets) == 1 and isinstance(node.targets[0], (ast.Tuple, ast.List)):
             n = len(node.targets[0].elts)
@@ -312,10 +321,10 @@ class _ExpandUnpackedComprehension(ast.NodeTransformer):
                 v = v.args[0]
             elts = None
             if isinstance(v, (ast.ListComp, ast.GeneratorExp)) and len(v.generators) == 1 and not v.generators[0].ifs \
-                    and isinstance(v.generators[0].target, ast.Name) and isinstance(v.generators[0].iter, (ast.Tuple, ast.List)) \
-                    and len(v.generators[0].iter.elts) == n:
+                    and isinstance(v.generators[0].target, ast.Name) and isinstance(self._seq(v.generators[0].iter), (ast.Tuple, ast.List)) \
+                    and len(self._seq(v.generators[0].iter).elts) == n:
                 var = v.generators[0].target.id
-                elts = [nf.subst(v.elt, {var: e}) for e in v.generators[0].iter.elts]
+                elts = [nf.subst(v.elt, {var: e}) for e in self._seq(v.generators[0].iter).elts]
             elif isinstance(v, ast.Call) and isinstance(v.func, ast.Name) and v.func.id == 'map' and len(v.args) == 2 \
                     and isinstance(v.args[1], (ast.Tuple, ast.List)) and len(v.args[1].elts) == n:
                 from ..index import clone
@@ -329,7 +338,8 @@ class _ExpandUnpackedComprehension(ast.NodeTransformer):
 def ret_paths(fi):
     """Decision paths without the infeasible ones that appear when a helper returning `result or None` was inlined."""
     from ..index import clone
-    body = [_ExpandUnpackedComprehension().visit(clone(st)) for st in fi.node.body]
+    local = lib.local_env(fi.node)
+    body = [_ExpandUnpackedComprehension(local).visit(clone(st)) for st in fi.node.body]
     for st in body:
         ast.fix_missing_locations(st)
     out = []
@@ -2159,6 +2169,50 @@ def leaf_kind(leaf, errname, idx=None, fi=None):
     return 'fall'
 
 
+def interpret_handler(idx, fi, h, cls, mro, env):
+    """Outcome kind of running the handler body for an exception of class `cls` under the switch assignment `env`, by the
+    small Python interpreter of sa/shapes.py (tables of lambdas, next(), tuple unpacking); None when it cannot be run."""
+    from .. import shapes as S
+    try:
+        it = S.Interp(idx, 'mitxgraders.helpers.calc.math_array.MathArray')
+        me = S.ObjV(idx.cls(MGQ))
+        me.attrs['config'] = {'suppress_matrix_messages': env['suppress_matrix_messages'], 'shape_errors': env.get('shape_errors', True),
+                              'answer_shape_mismatch': {'is_raised': env.get('answer_shape_mismatch.is_raised', True), 'msg_detail': 'type'},
+                              'negative_powers': True}
+        chain = list(mro)
+        inst = S.ExcInst(S.ClassV(cls, chain), ('\0ERRMSG\0',), None)
+        selfp = fi.params[0]
+        scope = {selfp: me}
+        if h.name:
+            scope[h.name] = inst
+        it.handling.append(inst)
+
+        def body():
+            try:
+                it.exec_block(h.body, scope, fi)
+            except S._Return as ret:
+                return ret.value
+            return S.Opaque('fall')
+        out = it.run(body)
+    except AnalysisError:
+        return None
+    if out.kind == 'RAISE':
+        return 'raise' if out.exc is inst else 'raise-other:%s' % out.exc.cls.name.split('.')[-1]
+    v = out.value
+    if isinstance(v, S.Opaque):
+        return 'fall'
+    if isinstance(v, dict):
+        g, ok, msg = v.get('grade_decimal'), v.get('ok', False), v.get('msg', '')
+        if g == 0 and ok is False and not isinstance(g, bool):
+            if msg == '':
+                return 'zero-silent'
+            if msg == '\0ERRMSG\0':
+                return 'zero-message'
+            return 'zero-othermsg'
+        return 'ret-other'
+    return 'ret-other'
+
+
 def d3_policy(ctx, idx):
     r = ctx.rule('D3.POLICY', 'MatrixGrader.check_response realises the mismatch-policy truth table for every matrix error class', floor=13)
     with r:
@@ -2170,7 +2224,17 @@ def d3_policy(ctx, idx):
         sup = [c for c in lib.calls_named(fi.node, 'check_response') if isinstance(c.func, ast.Attribute)
                and isinstance(c.func.value, ast.Call) and nf.callee_name(c.func.value) == 'super']
         if not sup:
-            raise AnalysisError('MatrixGrader.check_response: no super().check_response call')
+            # the parent call may sit in a helper method that check_response calls inside its try
+            mgci = idx.cls(MGQ)
+            for m in mgci.methods.values():
+                if m is fi:
+                    continue
+                if [c for c in lib.calls_named(m.node, 'check_response') if isinstance(c.func, ast.Attribute)
+                        and isinstance(c.func.value, ast.Call) and nf.callee_name(c.func.value) == 'super']:
+                    sup = [c for c in lib.calls_named(fi.node, m.name) if isinstance(c.func, ast.Attribute)]
+                    break
+        if not sup:
+            raise AnalysisError('MatrixGrader.check_response: no (direct or delegated) super().check_response call')
         inside = all(tr in lib.enclosing_trys(c) for c in sup)
         r.check(inside, 'MatrixGrader.check_response: guarded evaluation', 'the parent check_response runs inside the try',
                 'the parent check_response is called outside the try: shape errors bypass the mismatch policy', lib.loc(fi, sup[0]))
@@ -2187,6 +2251,12 @@ def d3_policy(ctx, idx):
             else:
                 classes = resolve_classes(idx, fi.module, h.type)
             handlers.append((h, classes, nf.decision_paths(h.body)))
+        # un-inlined helpers that the handlers do not call cannot change what a handler does with a caught error
+        left = list(getattr(idx, 'unreviewed', None) or [])
+        called = {nf.callee_name(c) for h_ in tr.handlers for st in h_.body for c in ast.walk(st) if isinstance(c, ast.Call)}
+        handler_marker = ''
+        if left and not any(q.rsplit('.', 1)[-1] in called for q in left):
+            handler_marker = ' [the handlers call none of %s]' % ', '.join(left)
         ALL = ['suppress_matrix_messages', 'shape_errors', 'answer_shape_mismatch.is_raised']
         text = {'zero-silent': 'graded wrong without a message', 'raise': 'the error is raised to the student',
                 'zero-message': 'graded wrong with the error text as message', 'fall': 'the handler falls through (no result)',
@@ -2205,7 +2275,7 @@ def d3_policy(ctx, idx):
             for s_ in (True, False):
                 for pol in ((True, False) if switch else (None,)):
                     setting = 'suppress_matrix_messages=%s%s' % (s_, ', %s=%s' % (switch, pol) if switch else '')
-                    construct = 'MatrixGrader.check_response: %s [%s]' % (what, setting)
+                    construct = 'MatrixGrader.check_response: %s [%s]%s' % (what, setting, handler_marker)
                     want = 'zero-silent' if s_ else ('raise' if (pol or switch is None) else 'zero-message')
                     others = [k for k in ALL[1:] if k != switch]
                     verdict = None
@@ -2234,8 +2304,18 @@ def d3_policy(ctx, idx):
                                     break
                                 taken.append(p)
                             if unknown or len(taken) != 1:
-                                verdict = ('und', lib.loc(fi, h))
-                                break
+                                # a table of (classes, lambda, lambda) rows read by next(): run the handler in the interpreter
+                                got2 = interpret_handler(idx, fi, h, cls, mro, env)
+                                if got2 is None:
+                                    verdict = ('und', lib.loc(fi, h))
+                                    break
+                                got, where = got2, lib.loc(fi, h)
+                                via = 'handled by `except %s` (body interpreted)' % (short(h.type) if h.type is not None else '')
+                                if got != want:
+                                    verdict = ('bad', got, where, extra, via)
+                                    break
+                                verdict = verdict or ('ok', where)
+                                continue
                             got = leaf_kind(taken[0].leaf, h.name, idx, fi)
                             if got == 'unknown':
                                 verdict = ('und', lib.loc(fi, taken[0].leaf.stmt or h))
